@@ -59,10 +59,10 @@ def c15_struct(tier="quick", seed=0):
         src = _S_.unparse(S.fn("microjs.compiler", "Compiler." + fn))
         out.append(ob(f"C15.struct.by-name.{fn}", pat in src, "K3", f"{fn} resolves the slot with {pat}"))
     ops = _S_.unparse(S.fn("microjs.vm", "VM._execute_opcode"))
-    out.append(ob("C15.struct.make-closure-by-name", "frame.func.cell_vars.index(var_name)" in ops and "frame.func.free_vars.index(var_name)" in ops and "for var_name in compiled_func.free_vars" in ops, "K3",
+    out.append(ob("C15.struct.make-closure-by-name", "frame.func.cell_vars.index(var_name)" in ops and "frame.func.free_vars.index(var_name)" in ops and "for var_name in compiled_func.free_vars:" in ops, "K3",
                   "MAKE_CLOSURE wires every free variable by name"))
     inv = _S_.unparse(S.fn("microjs.vm", "VM._invoke_js_function"))
-    out.append(ob("C15.struct.cells-by-name", "for var_name in compiled.cell_vars" in inv and "compiled.locals.index(var_name)" in inv, "K3", "cell storage is initialised by name"))
+    out.append(ob("C15.struct.cells-by-name", "for var_name in compiled.cell_vars:" in inv and "compiled.locals.index(var_name)" in inv, "K3", "cell storage is initialised by name"))
     # positional reuse of another function's slot table would be order dependent: no zip / [i] over free_vars / cell_vars
     pos = [_S_.unparse(n)[:60] for n in ast.walk(S.source().modules["microjs.vm"].tree)
            if isinstance(n, ast.Subscript) and isinstance(n.value, ast.Attribute) and n.value.attr in ("free_vars", "cell_vars") and not isinstance(n.ctx, ast.Store)]
